@@ -25,7 +25,7 @@ def rule_r1(facts, col):
             continue
         pushes = [bb for bb, t in body.calls_to(PUSH)]
         for i, pb in enumerate(pushes):
-            fs = facts_at(body, pb)
+            fs = facts_at_with_callers(facts, body, pb)
             key = "%s:push#%d" % (body.q, i)
             mult8 = minsz = False
             crc_on = None
@@ -93,6 +93,30 @@ def rule_r2(facts, col):
                     "the bit buffer grows without bound on flag-free input", {})
 
 
+def _state_variants(facts, e, depth=0):
+    """variants of hdlc State an expression can denote: an aggregate, or a call to a local function all of whose
+    returns are State aggregates"""
+    st = peel(e, through_try=False)
+    if st is None or depth > 3:
+        return []
+    if st.k == "agg" and st.adt == STATE_ENUM:
+        return [st.variant]
+    if st.k == "multi" and st.alts:
+        out = []
+        for a in st.alts:
+            out += _state_variants(facts, a, depth + 1)
+        return out
+    if st.k == "call":
+        out = []
+        for q in (st.rq, st.q):
+            for cb in facts.by_q.get(q, []):
+                for bb, si, r in assigns_to_return(cb):
+                    out += _state_variants(facts, r, depth + 1)
+            if out:
+                return out
+    return []
+
+
 def rule_r3(facts, col):
     """once the closing flag has been recognised the deframer stays Synced (the flag may open the next frame)"""
     for body in facts.bodies:
@@ -116,11 +140,20 @@ def rule_r3(facts, col):
             if bb not in after:
                 continue
             if e.k == "agg" and e.variant == "Ok" and e.args:
-                st = peel(e.args[0], through_try=False)
-                if st.k == "agg" and st.adt == STATE_ENUM:
-                    n += 1
-                    if st.variant != "Synced":
-                        bad.append((bb, st.variant))
+                inner = e.args[0]
+                cands = []
+                if inner.k == "multi":
+                    # a `match` result: only the arms that lie after the closing flag count
+                    for dbb, si, kind, payload in body.defs().get(inner.local, []):
+                        if dbb in after:
+                            cands.append((dbb, body.rvalue_expr(payload) if kind == "rv" else body.call_expr(dbb, payload)))
+                else:
+                    cands.append((bb, inner))
+                for cbb, ce in cands:
+                    for variant in _state_variants(facts, ce):
+                        n += 1
+                        if variant != "Synced":
+                            bad.append((cbb, variant))
         key = body.q + ":after_flag"
         if bad:
             col.bad("C13.R3", key, body.where(bad[0][0]),
